@@ -15,3 +15,6 @@ def run(ctx, rep):
     pivot.rule_pivrow_consistent(mod, rep)
     pivot.rule_inverse_perms(mod, rep)
     misc.rule_expanders_free_null(mod, rep)
+    from ..rules import more
+    more.rule_options_perm(mod, rep)
+    more.rule_meminit_refact(mod, rep)
